@@ -38,7 +38,7 @@ def sh(cmd, cwd=None, timeout=1800):
     return p.returncode, p.stdout
 
 
-meta = {"property": prop.rstrip("bcde"), "round": 5 if prop.endswith("e") else 4 if prop.endswith("d") else 3 if prop.endswith("c") else (2 if prop.endswith("b") else 1), "seed": n, "source": "independent sub-agent given only the property text", "at": time.strftime("%Y-%m-%d %H:%M:%S")}
+meta = {"property": prop.rstrip("bcdef"), "round": 9 if prop.endswith("f") else 5 if prop.endswith("e") else 4 if prop.endswith("d") else 3 if prop.endswith("c") else (2 if prop.endswith("b") else 1), "seed": n, "source": "independent sub-agent given only the property text", "at": time.strftime("%Y-%m-%d %H:%M:%S")}
 assert subprocess.run("git -C /repo status --porcelain --untracked-files=no", shell=True, stdout=subprocess.PIPE, text=True).stdout.strip() == "", "repo dirty"
 
 # ---- 1. scratch worktree
@@ -124,7 +124,7 @@ finally:
 meta["checks"] = results
 caught = sorted(c for c, r in results.items() if r["rc"] == 1)
 meta["caught_by"] = caught
-own = prop.rstrip("bcde")
+own = prop.rstrip("bcdef")
 meta["own_check_catches"] = own in caught
 print("caught by:", caught, " own check catches:", own in caught)
 for c, r in sorted(results.items()):
